@@ -312,15 +312,20 @@ func (sn3 *storageNodeV3) GetBase() entitywrapper.EntityBaseI {
 }
 
 func (sn3 *storageNodeV3) MigrateFrom(e entitywrapper.EntityI) error {
-	v2, ok := e.(*storageNodeV2)
-	if !ok {
+	switch v := e.(type) {
+	case *storageNodeV2:
+		base := v.GetBase().(*storageNodeBase)
+		sn3.ApplyBaseChanges(*base)
+		sn3.Version = "v3"
+		sn3.IsRestricted = v.IsRestricted
+	case *storageNodeV1:
+		// a blobber that was never updated since the origin version is still stored as
+		// v1; the wrapper migrates in one step, so v3 must accept it directly
+		sn3.ApplyBaseChanges(storageNodeBase(*v))
+		sn3.Version = "v3"
+	default:
 		return errors.New("struct migrate fail, wrong storageNode type")
 	}
-
-	base := v2.GetBase().(*storageNodeBase)
-	sn3.ApplyBaseChanges(*base)
-	sn3.Version = "v3"
-	sn3.IsRestricted = v2.IsRestricted
 	return nil
 }
 
